@@ -295,6 +295,8 @@ impl Builder {
         match idx {
             Some(idx) => {
                 if idx < self.module.functions.len() {
+                    // the selected block index belongs to the previously selected function
+                    self.selected_block = None;
                     self.selected_function = Some(idx);
                     Ok(())
                 } else {
@@ -381,6 +383,7 @@ impl Builder {
             None,
             vec![],
         ));
+        self.selected_block = None;
         self.selected_function = None;
         Ok(())
     }
